@@ -494,7 +494,15 @@ def offline_gap(ix, rep, mon):
     dom = cfg.dominators()
     ln = [n for n in cfg.nodes() if cfg.stmt[n] is loop]
     rets = [n for n in cfg.reachable() if n == cfg.exit or isinstance(cfg.stmt[n], ast.Return)]
-    if ln and all(ln[0] in dom[r] for r in rets if r in dom):
+    # a guard that only asks how many samples there are skips the loop exactly when it would not iterate
+    def _length_guard(test):
+        names = {x.id for x in ast.walk(test) if isinstance(x, ast.Name)}
+        calls = [x for x in ast.walk(test) if isinstance(x, ast.Call)]
+        only_len = all(isinstance(c_.func, ast.Name) and c_.func.id == 'len' for c_ in calls)
+        return only_len and names <= ({X, 'len', dparam} | set(lens)) and not any(isinstance(x, ast.Subscript) and not (isinstance(x.slice, ast.Constant) and x.slice.value == 'time') for x in ast.walk(test))
+    guards_ = [x for x in ast.walk(f.node) if isinstance(x, ast.If) and any(y is loop for y in x.body)]
+    harmless = bool(guards_) and all(_length_guard(g_.test) and not g_.orelse for g_ in guards_) and all(g_ in f.node.body for g_ in guards_)
+    if ln and (all(ln[0] in dom[r] for r in rets if r in dom) or harmless):
         rep.ok('R-GAPLOOP', f.module.rel, sym, 'offline:every-trace', 'the gap loop lies on every path to a normal return', loop.lineno)
     else:
         guard = [x for x in ast.walk(f.node) if isinstance(x, ast.If) and any(y is loop for y in ast.walk(x))]
